@@ -910,6 +910,13 @@ def run_copy(case):
     how = case.get("how", "deepcopy")
     with _quiet():
         obj = build(case["spec"])
+        if name in MAPS and case["spec"].get("stale") and obj.has_spline() and len(obj.vrnt_chrgrp) >= 3:
+            # a source whose interpolation models are NOT the ones that would be built from its current markers: a marker is
+            # removed after the models were built (remove/select keep them); a copy must carry the models the source has
+            try:
+                obj.remove([len(obj.vrnt_chrgrp) // 2])
+            except Exception:
+                pass
         exp = observe(obj, name)
         snap = copy.deepcopy({k: v for k, v in exp.items()})
         if how == "copy":
@@ -1210,7 +1217,8 @@ def rand_spec(rnd, name, mode="any", labs=("ascii", "uni", "mixed", "tricky")):
         sp["loc"] = rnd.choice(["arr", "arr", "scalar", "default"])
     elif name in MAPS:
         sp.update(nchr=rnd.choice([1, 2, 3]), per=rnd.choice([2, 3, 4]), group=rnd.random() < 0.7,
-                  spline=rnd.random() < 0.7, kind=rnd.choice(["linear", "linear", "nearest", "previous"]))
+                  spline=rnd.random() < 0.7, kind=rnd.choice(["linear", "linear", "nearest", "previous"]),
+                  stale=rnd.random() < 0.4)
         if not sp["group"]:
             sp["shuffle"] = rnd.random() < 0.5
     elif name in MODELS:
